@@ -91,6 +91,19 @@ Definition check_rmdisc (cm : bool) (raw : raw_t) (query : list (Z * Z))
   && extl_close direct (rd_interp_genpos rows query) && extl_close rebuilt (rd_interp_genpos rows query)
   && extl_eqb (rd_interp_genpos rows (own_pairs rows')) (fin_gens rows').
 
+(** select(indices | mask) / remove(indices | slice) / ExtendedGeneticMap.prune(nt, M) — every one keeps a subset of the markers
+    ([mask], read off the implementation's result), re-sorts, re-groups and rebuilds the spline: the reduced map, its grouping,
+    interpolation right afterwards ([direct]) and exactness at the remaining markers *)
+Definition check_select (cm : bool) (raw : raw_t) (mask : list bool) (query : list (Z * Z))
+    (impl : list Z * list Z * list ext * list (list Z) * (list Z * list Z * list Z * list Z)) (isc : bool) (direct : list ext) : bool :=
+  let '(chr, phy, gen, pay, meta) := impl in
+  let rows' := select_rows (gm_rows (to_rows cm raw)) mask in
+  (length mask =? length raw)%nat
+  && zl_eqb (map r_chr rows') chr && zl_eqb (map r_phy rows') phy && extl_eqb (fin_gens rows') gen && zll_eqb (map r_pay rows') pay
+  && meta_eqb (group_meta (map r_chr rows')) meta && Bool.eqb (is_congruent rows') isc
+  && extl_close direct (interp_genpos rows' query)
+  && extl_eqb (interp_genpos rows' (own_pairs rows')) (fin_gens rows').
+
 (** grouping metadata of a map against the model's [option]: [None] = the map is not grouped (all four arrays absent) *)
 Definition optmeta_eqb (m : option meta_t) (grouped : bool) (meta : meta_t) : bool :=
   match m with
